@@ -305,27 +305,32 @@ def readHeader (h : H) : St × H :=
     (e.hst, { h with entries := rest, nread := h.nread + 1, evs := e.evs, term := e.term, hook := e.hook,
                      evpos := 0, entryObj := some (h.nread, e.size) })
 
+/-- `_archive_read_next_header2` from `++_a->file_count` on: `r1` is the status of the
+skip of the previous body (ARCHIVE_OK when there was nothing to skip). -/
+def headerRest (r1 : St) (h1 : H) : St × H :=
+  let r := readHeader { h1 with fileCount := h1.fileCount + 1 }
+  let h4 : H :=
+    match r.1 with
+    | .eof => { r.2 with state := .eof, fileCount := r.2.fileCount - 1 }   -- "Revert a file counter."
+    | .ok => { r.2 with state := .data }
+    | .err .warn => { r.2 with state := .data }
+    | .err .retry => r.2
+    | .err .fatal => { r.2 with state := .fatal }
+    | .err .failed => r.2                                                  -- not in the `switch`
+  -- "EOF always wins; otherwise return the worst error."
+  ((if r.1.code < r1.code ∨ r.1 = .eof then r.1 else r1), { h4 with rd := resetRD })
+
 /-- `_archive_read_next_header2`. -/
 def nextHeader (h : H) : St × H :=
   if h.state ≠ .header ∧ h.state ≠ .data then (.err .fatal, { h with state := .fatal })
   else
-    let h := { h with entryObj := none }                 -- archive_entry_clear
-    let (r1, h1) : St × H := if h.state = .data then dataSkip h else (.ok, h)
-    if h.state = .data ∧ (r1 = .eof ∨ r1 = .err .fatal) then
-      (.err .fatal, { h1 with state := .fatal })
-    else
-      let h2 := { h1 with fileCount := h1.fileCount + 1 }
-      let (r2, h3) := readHeader h2
-      let h4 : H :=
-        match r2 with
-        | .eof => { h3 with state := .eof, fileCount := h3.fileCount - 1 }
-        | .ok => { h3 with state := .data }
-        | .err .warn => { h3 with state := .data }
-        | .err .retry => h3
-        | .err .fatal => { h3 with state := .fatal }
-        | .err .failed => h3
-      let h5 := { h4 with rd := resetRD }
-      ((if r2.code < r1.code ∨ r2 = .eof then r2 else r1), h5)
+    let h0 := { h with entryObj := none }                 -- archive_entry_clear
+    if h.state = .data then
+      -- "If client didn't consume entire data, skip any remainder"
+      let d := dataSkip h0
+      if d.1 = .eof ∨ d.1 = .err .fatal then (.err .fatal, { d.2 with state := .fatal })
+      else headerRest d.1 d.2
+    else headerRest .ok h0
 
 /-- `archive_read_open*` with the scripted format as only bidder. -/
 def openH (entries : List Entry) : H := { state := .header, entries := entries }
